@@ -82,7 +82,9 @@ pub fn make_linked_list<'a>(vbar: bool, mut terms: Vec<Unifiable>) -> Unifiable 
     let mut tail = cons_node!(Nil, Nil, 0, false);
 
     let n_terms = terms.len();
-    if n_terms == 0 { return tail; }  // Return empty list.
+    // Return empty list if there are no terms, or only the Nil
+    // which marks the end of a list (see recreate_variables()).
+    if n_terms == 0 || (n_terms == 1 && terms[0] == Nil) { return tail; }
 
     let mut tail_var = vbar;   // Last variable is a tail variable.
     let mut num = 1;
